@@ -290,6 +290,20 @@ pub struct Walker {
     pub rng: StdRng,
     pub own: Vec<u16>,
     pub foreign: u16,
+    /// dimensions (per the documented block layout) of the last configuration block this walker sent
+    pub cfg_dims: Option<(u32, u32)>,
+}
+
+/// Width and height a configuration block describes, per the documented layout (None for other families).
+pub fn documented_dims(b: &[u8]) -> Option<(u32, u32)> {
+    if b.len() != 16 {
+        return None;
+    }
+    match b[0] {
+        4 => Some((b[5] as u32 + b[6] as u32 + b[7] as u32 + b[8] as u32, b[4] as u32)),
+        8 => Some((b[7] as u32, b[5] as u32)),
+        _ => None,
+    }
 }
 
 impl Walker {
@@ -320,6 +334,22 @@ impl Walker {
                 b[0] = if rng.gen_bool(0.5) { 4 } else { 8 };
                 b
             }
+            8 if rng.gen_bool(0.5) => {
+                // a small custom size with arbitrary values in the bytes the layout calls unused / unknown
+                let mut b: Vec<u8> = (0..16).map(|_| rng.r#gen()).collect();
+                if rng.gen_bool(0.5) {
+                    b[0] = 4;
+                    b[4] = rng.gen_range(1..=17);
+                    for k in 5..9 {
+                        b[k] = if rng.gen_bool(0.5) { 0 } else { rng.gen_range(0..=6) };
+                    }
+                } else {
+                    b[0] = 8;
+                    b[5] = rng.gen_range(1..=17);
+                    b[7] = rng.gen_range(0..=24);
+                }
+                b
+            }
             8 => {
                 // small arbitrary sizes incl. zero and large widths
                 let mut b = vec![0u8; 16];
@@ -343,7 +373,11 @@ impl Walker {
             State::ConfigInProgress if r < 70 => {
                 if r < 45 {
                     *chunks += 1;
-                    sd(0, &self.rand_cfg())
+                    let cfg = self.rand_cfg();
+                    if let Some(d) = documented_dims(&cfg) {
+                        self.cfg_dims = Some(d);
+                    }
+                    sd(0, &cfg)
                 } else if r < 50 {
                     *chunks += 1;
                     let n = self.rng.gen_range(0..=40);
@@ -356,7 +390,8 @@ impl Walker {
                 }
             }
             State::PixelsInProgress if r < 85 => {
-                let page_len = typ_dims.map(|(w, h)| ((4 + w as usize * ((h as usize + 7) / 8) + 15) / 16) * 16).unwrap_or(32);
+                // the page length the walker aims for: from the configuration it sent itself (any family-4/8 block), else the known type
+                let page_len = self.cfg_dims.or(typ_dims).map(|(w, h)| ((4 + w as usize * ((h as usize + 7) / 8) + 15) / 16) * 16).unwrap_or(32);
                 if r < 70 {
                     // mostly well-formed chunking, with occasional short / long / empty / misplaced chunks
                     let q = self.rng.gen_range(0..100);
@@ -456,7 +491,7 @@ pub fn record_walks(a: &Args, out: &mut TraceOut, seed_salt: u64, walks: usize, 
         };
         let foreign = own.wrapping_add(1);
         let flip = if w % 2 == 0 { PageFlipStyle::Manual } else { PageFlipStyle::Automatic };
-        let mut walker = Walker { rng, own: vec![own], foreign };
+        let mut walker = Walker { rng, own: vec![own], foreign, cfg_dims: None };
         let mut s = VirtualSign::new(Address(own), flip);
         out.emit(json!({"e": "reset", "addr": own, "flip": flip_name(flip)}));
         let (mut sent, mut chunks) = (0usize, 0u32);
@@ -601,6 +636,38 @@ pub fn record_directed(out: &mut TraceOut, thorough: bool) -> Value {
         }
     }
     run(out, v, PageFlipStyle::Manual);
+    // complete, well-formed transfers of one page for custom configurations: large sizes, sizes at buffer boundaries,
+    // and blocks with arbitrary values in the bytes the documented layout does not use
+    let mut customs: Vec<Vec<u8>> = vec![
+        vec![4, 0x99, 0, 0x0F, 0x80, 0x80, 0x80, 0x80, 0x80, 0x10, 0, 0, 0, 0, 0, 0],       // 512 x 128 (8208 bytes)
+        vec![8, 0xB0, 0, 7, 0x0C, 0xFF, 0, 0xFF, 1, 0, 0xFF, 0, 0, 0, 0, 0],                 // 255 x 255 (8176 bytes)
+        vec![8, 0xB0, 0, 7, 0x0C, 8, 1, 0x0C, 1, 0, 0x0C, 0, 0, 0, 0, 0],                    // 12 x 8, byte 6 = 1
+        vec![8, 0xB0, 0xFF, 7, 0x0C, 8, 0xFF, 0x1C, 0xFF, 0xFF, 0xFF, 0xFF, 0xFF, 0xFF, 0xFF, 0xFF],
+        vec![4, 0x99, 0xFF, 0xFF, 9, 3, 0, 2, 0, 0xFF, 0xFF, 0xFF, 0xFF, 0xFF, 0xFF, 0xFF],
+        vec![4, 0x20, 1, 6, 7, 30, 30, 30, 0, 8, 9, 9, 9, 9, 9, 9],                          // known id, other bytes altered
+    ];
+    if thorough {
+        customs.push(vec![4, 0x99, 0, 0, 0xFF, 0xFF, 0xFF, 0xFF, 0xFF, 0x10, 0, 0, 0, 0, 0, 0]); // 1020 x 255 (32656 bytes)
+    }
+    for (ci, cfg) in customs.iter().enumerate() {
+        let (w, h) = documented_dims(cfg).unwrap();
+        let total = ((4 + w as usize * ((h as usize + 7) / 8) + 15) / 16) * 16;
+        let mut v = vec![Message::RequestOperation(a, Operation::ReceiveConfig), sd(0, cfg), Message::DataChunksSent(ChunkCount(1)), Message::QueryState(a),
+                         Message::RequestOperation(a, Operation::ReceivePixels)];
+        let mut count = 0u32;
+        for page in 0..2u8 {
+            let bytes: Vec<u8> = (0..total).map(|i| if i == 0 { page } else { (i * 7 + ci) as u8 }).collect();
+            for (i, c) in bytes.chunks(16).enumerate() {
+                v.push(sd(((i * 16) % 65536) as u16, c));
+                count += 1;
+            }
+        }
+        v.push(Message::DataChunksSent(ChunkCount((count % 65536) as u16)));
+        v.push(Message::QueryState(a));
+        v.push(Message::PixelsComplete(a));
+        v.push(Message::QueryState(a));
+        run(out, v, if ci % 2 == 0 { PageFlipStyle::Manual } else { PageFlipStyle::Automatic });
+    }
     if thorough {
         // 65536 + 5 chunks in one transfer (the 16-bit counter wraps)
         let mut v = vec![Message::RequestOperation(a, Operation::ReceiveConfig), sd(0, &cfg_tiny()), Message::DataChunksSent(ChunkCount(1)), Message::RequestOperation(a, Operation::ReceivePixels)];
@@ -678,7 +745,7 @@ pub fn record_bus_walks(a: &Args, out: &mut TraceOut, salt: u64, walks: usize, s
         let signs: Vec<VirtualSign<'static>> = (0..n).map(|i| VirtualSign::new(Address(addrs[i]), flips[i])).collect();
         let mut bus = VirtualSignBus::new(signs);
         out.emit(json!({"e": "busreset", "signs": (0..n).map(|i| json!({"addr": addrs[i], "flip": flip_name(flips[i])})).collect::<Vec<_>>()}));
-        let mut walker = Walker { rng, own: addrs.clone(), foreign: absent };
+        let mut walker = Walker { rng, own: addrs.clone(), foreign: absent, cfg_dims: None };
         let mut focus = 0usize;
         let (mut sent, mut chunks) = (vec![0usize; n], vec![0u32; n]);
         for _ in 0..steps {
